@@ -243,6 +243,13 @@ func checkResetChain(w *World, r *Report, d *detInfo, k *kernels) {
 	} else {
 		r.Check(n > 0, "F5", "MotionProcessor.Reset closes the motion recording", "-", fmt.Sprintf("%d exit contexts", n))
 	}
+	checkProcessorResetResetsDetector(w, r, runs, "F5")
+	checkHandleConnMarker(w, r, "F5")
+}
+
+// checkProcessorResetResetsDetector: every return of MotionProcessor.Reset is preceded by the detector's reset
+// (also when stopping the recording in progress fails).
+func checkProcessorResetResetsDetector(w *World, r *Report, runs *motionRuns, rule string) {
 	okDet := false
 	for _, ev := range runs.fault.sortedEvents() {
 		if ev.Kind == "obj:detector.Reset" && ev.Entry == "Reset" {
@@ -257,8 +264,7 @@ func checkResetChain(w *World, r *Report, d *detInfo, k *kernels) {
 			}
 		}
 	}
-	r.Check(okDet, "F5", "MotionProcessor.Reset always resets the detector", "-", "")
-	checkHandleConnMarker(w, r, "F5")
+	r.Check(okDet, rule, "MotionProcessor.Reset always resets the detector (and with it the background frame count), whatever stopping the recording returns", "-", "")
 }
 
 // ---------------------------------------------------------------------------------------
@@ -492,6 +498,9 @@ func propC15(w *World, r *Report) {
 			}
 		}
 		r.Check(zero, "A4", "Reset zeroes the background frame count", w.Pos(k.reset.Pos()), "")
+	}
+	if mruns, err := getMotionRuns(w); err == nil {
+		checkProcessorResetResetsDetector(w, r, mruns, "A4")
 	}
 	// A5: envelope
 	for _, a := range elemAccesses(k.updateBg) {
